@@ -1074,3 +1074,218 @@ Example ex_supersession_hypotheses_satisfiable :
   pg_has_extras (pg_prepare [("a", w_done "update"); ("b", w_retry "update")] ["a"; "b"; "d"] PRDelete ["a"; "d"] w_now) = true /\
   pg_changed (pg_hs_from_storage w_now (w_retry "update")) = false.
 Proof. vm_compute. repeat split. Qed.
+
+(* ------------------------------------------------------------------ arbitrary nesting depth *)
+Lemma pg_deep_unfold : forall f body reason lc now fam leaf k n res so ss,
+  fam k = Some (res, so, ss) ->
+  pg_deep_oracle (S f) body reason lc now fam leaf k n =
+  pg_parent_outcome res (pg_sub_execute body reason so ss lc now (pg_deep_oracle f body reason lc now fam leaf))
+                    (sr_deeper (pg_sub_execute body reason so ss lc now (pg_deep_oracle f body reason lc now fam leaf))).
+Proof. intros * H. simpl. now rewrite H. Qed.
+
+Lemma pg_deep_leaf : forall f body reason lc now fam leaf k n,
+  fam k = None -> pg_deep_oracle f body reason lc now fam leaf k n = leaf k n.
+Proof. intros * H. destruct f; simpl; [reflexivity|now rewrite H]. Qed.
+
+Lemma pg_sub_invoked_ran : forall body reason so ss lc now orc c m,
+  In (c, m) (sr_invoked (pg_sub_execute body reason so ss lc now orc)) ->
+  incl (o_subrefs (fst (orc c m))) (sr_deeper (pg_sub_execute body reason so ss lc now orc)) /\
+  incl (map fst (e_stores (snd (orc c m)))) (map fst (sr_stores (pg_sub_execute body reason so ss lc now orc))).
+Proof.
+  intros * H. unfold pg_sub_execute in *. cbn [sr_invoked sr_deeper sr_stores] in *.
+  set (st := pg_with_handlers _ ss now) in *. set (plan := pg_plan lc st ss now) in *.
+  unfold pg_invocations in H. apply in_map_iff in H. destruct H as (c' & E & Hc). inversion E. subst c' m. clear E.
+  assert (Hran : In (c, orc c (pg_retries_of st c)) (pg_run orc st plan)).
+  { unfold pg_run. apply in_map_iff. now exists c. }
+  split.
+  - intros s Hs. apply in_flat_map. eexists. split; [exact Hran|exact Hs].
+  - intros s Hs. rewrite map_app. apply in_or_app. left.
+    apply in_map_iff in Hs. destruct Hs as (kr & E & Hkr). apply in_map_iff. exists kr. split; [exact E|].
+    apply in_flat_map. eexists. split; [exact Hran|exact Hkr].
+Qed.
+
+(* every ancestor's outcome lists the keys of its own sub-state and everything its invoked sub-handlers list *)
+Theorem deep_subrefs_accumulate : forall f body reason lc now fam leaf k n res so ss,
+  fam k = Some (res, so, ss) ->
+  let sub := pg_deep_oracle f body reason lc now fam leaf in
+  let sr := pg_sub_execute body reason so ss lc now sub in
+  let o := fst (pg_deep_oracle (S f) body reason lc now fam leaf k n) in
+  (forall s, In s (map fst (st_items (sr_final sr))) -> In s (o_subrefs o)) /\
+  (forall c m s, In (c, m) (sr_invoked sr) -> In s (o_subrefs (fst (sub c m))) -> In s (o_subrefs o)).
+Proof.
+  intros * Hfam sub sr o. subst o. rewrite (pg_deep_unfold _ _ _ _ _ _ _ _ _ _ _ _ Hfam). fold sub. fold sr.
+  destruct (pg_parent_outcome_fields res sr (sr_deeper sr)) as (_ & _ & _ & F). cbv zeta in F. rewrite F. split.
+  - intros s Hs. apply in_or_app. left. unfold sr. now rewrite pg_sub_keys.
+  - intros c m s Hc Hs. apply in_or_app. right. destruct (pg_sub_invoked_ran _ _ _ _ _ _ _ _ _ Hc) as [H _]. now apply H.
+Qed.
+
+(* the descendants of an invocation: the ids of its sub-state, and the descendants of the sub-handlers it invoked *)
+Inductive pg_desc (body : list (pg_hid * pg_srec)) (reason : pg_reason) (lc : pg_lifecycle) (now : Z)
+          (fam : pg_family) (leaf : pg_oracle) : nat -> pg_hid -> Z -> pg_hid -> Prop :=
+  | pg_desc_child : forall f k n res so ss s,
+      fam k = Some (res, so, ss) ->
+      In s (map fst (st_items (sr_final (pg_sub_execute body reason so ss lc now (pg_deep_oracle f body reason lc now fam leaf))))) ->
+      pg_desc body reason lc now fam leaf (S f) k n s
+  | pg_desc_deeper : forall f k n res so ss c m s,
+      fam k = Some (res, so, ss) ->
+      In (c, m) (sr_invoked (pg_sub_execute body reason so ss lc now (pg_deep_oracle f body reason lc now fam leaf))) ->
+      pg_desc body reason lc now fam leaf f c m s ->
+      pg_desc body reason lc now fam leaf (S f) k n s.
+
+Theorem deep_lists_all_descendants : forall body reason lc now fam leaf fuel k n s,
+  pg_desc body reason lc now fam leaf fuel k n s ->
+  In s (o_subrefs (fst (pg_deep_oracle fuel body reason lc now fam leaf k n))).
+Proof.
+  intros * H. induction H as [f k n res so ss s Hfam Hs|f k n res so ss c m s Hfam Hc _ IH].
+  - destruct (deep_subrefs_accumulate f body reason lc now fam leaf k n res so ss Hfam) as [A _]. now apply A.
+  - destruct (deep_subrefs_accumulate f body reason lc now fam leaf k n res so ss Hfam) as [_ B]. eapply B; eauto.
+Qed.
+
+(* at the closing of a cycle the record of every descendant, of any depth, of every invoked handler is removed *)
+Theorem descendants_purged_with_ancestor : forall body owned reason selected lc now nd fuel fam leaf,
+  pg_handler_reason reason = true -> selected <> [] ->
+  let orc := pg_deep_oracle fuel body reason lc now fam leaf in
+  let r := pg_pipeline body owned reason selected lc now nd orc in
+  r_done r = Some true ->
+  forall k n s, In (k, n) (r_invoked r) -> pg_desc body reason lc now fam leaf fuel k n s ->
+                pg_after body (r_patch r) s = None.
+Proof.
+  intros * Hr Hs orc r Hd k n s Hinv Hdesc. subst r.
+  apply (children_purged_with_parent body owned reason selected lc now nd orc Hr Hs Hd k n s Hinv).
+  now apply deep_lists_all_descendants.
+Qed.
+
+(* whatever a handler (of any depth) writes into the shared patch is listed in its outcome's subrefs *)
+Lemma pg_store_list_keys : forall st s, In s (map fst (pg_store_list st)) -> In s (map fst (st_items st)).
+Proof.
+  intros st s H. unfold pg_store_list in H. apply in_map_iff in H. destruct H as ([a x] & E & H). simpl in E. subst a.
+  apply in_flat_map in H. destruct H as ([a h] & Hin & H). simpl in H. destruct (pg_changed h); [|destruct H].
+  destruct H as [H|[]]. inversion H. subst. apply in_map_iff. now exists (s, h).
+Qed.
+
+Theorem deep_reports_stores : forall body reason lc now fam leaf,
+  pg_pure leaf -> forall fuel, pg_reports_stores (pg_deep_oracle fuel body reason lc now fam leaf).
+Proof.
+  intros * Hp fuel. induction fuel as [|f IH]; intros k n s Hs.
+  - simpl in Hs. rewrite Hp in Hs. destruct Hs.
+  - destruct (fam k) as [[[res so] ss]|] eqn:Hfam.
+    + rewrite (pg_deep_unfold _ _ _ _ _ _ _ _ _ _ _ _ Hfam) in *.
+      set (sr := pg_sub_execute body reason so ss lc now (pg_deep_oracle f body reason lc now fam leaf)) in *.
+      destruct (pg_parent_outcome_fields res sr (sr_deeper sr)) as (_ & _ & _ & F). cbv zeta in F. rewrite F.
+      assert (Hst : In s (map fst (sr_stores sr))) by (unfold pg_parent_outcome in Hs; exact Hs). clear Hs.
+      unfold sr, pg_sub_execute in Hst. cbn [sr_stores] in Hst. rewrite map_app in Hst. apply in_app_or in Hst.
+      apply in_or_app. destruct Hst as [Hst|Hst].
+      * right. unfold sr, pg_sub_execute. cbn [sr_deeper].
+        apply in_map_iff in Hst. destruct Hst as (kr & E & Hst). apply in_flat_map in Hst. destruct Hst as (ke & Hke & Hkr).
+        apply in_flat_map. exists ke. split; [exact Hke|].
+        unfold pg_run in Hke. apply in_map_iff in Hke. destruct Hke as (c & Ec & _). subst ke. simpl in *.
+        apply IH. apply in_map_iff. now exists kr.
+      * left. unfold sr. rewrite pg_sub_keys. unfold pg_sub_execute. cbn [sr_final]. now apply pg_store_list_keys.
+    + rewrite (pg_deep_leaf (S f) _ _ _ _ _ _ _ _ Hfam) in *. rewrite Hp in Hs. destruct Hs.
+Qed.
+
+(* ------------------------------------------------------------------ after a closing call NOTHING remains *)
+Lemma pg_find_effects_fold : forall (l : list (pg_hid * pg_srec)) p s a,
+  pg_find s (fold_left (fun p kr => pg_p_set (fst kr) (PStore (snd kr)) p) l p) = Some a ->
+  pg_find s p = Some a \/ In s (map fst l).
+Proof.
+  induction l as [|kr l IH]; simpl; intros p s a H; [now left|].
+  apply IH in H. destruct H as [H|H]; [|right; now right].
+  rewrite pg_find_p_set in H. destruct (String.eqb (fst kr) s) eqn:E; [|now left].
+  apply String.eqb_eq in E. right. now left.
+Qed.
+
+Lemma pg_find_apply_effects : forall ran p s a,
+  pg_find s (pg_apply_effects ran p) = Some a ->
+  pg_find s p = Some a \/ exists ke, In ke ran /\ In s (map fst (e_stores (snd (snd ke)))).
+Proof.
+  unfold pg_apply_effects. induction ran as [|ke ran IH]; simpl; intros p s a H; [now left|].
+  apply IH in H. destruct H as [H|(ke' & H1 & H2)]; [|right; exists ke'; auto].
+  apply pg_find_effects_fold in H. destruct H as [H|H]; [now left|]. right. exists ke. auto.
+Qed.
+
+Lemma pg_subrefs_with_outcome : forall now h o s,
+  In s (h_subrefs h) \/ In s (o_subrefs o) -> In s (h_subrefs (pg_hs_with_outcome now h o)).
+Proof. intros. simpl. apply pg_sort_In, pg_dedup_In, in_or_app. exact H. Qed.
+
+(* the final state holds, for every owned id with a record, at least the references that record had *)
+Lemma pg_final_keeps_refs : forall body owned reason selected lc now orc k d s,
+  In k owned -> pg_find k body = Some d -> In s (pg_or (s_subrefs d) []) ->
+  exists h, pg_find k (st_items (pg_final_of body owned reason selected lc now orc)) = Some h /\ In s (h_subrefs h).
+Proof.
+  intros * Ho Hb Hs. unfold pg_final_of. rewrite pg_find_with_outcomes, pg_prepare_find.
+  unfold pg_wh_spec, pg_base. apply pg_mem_In in Ho. rewrite Ho, Hb. cbn [option_map].
+  set (h2 := if pg_mem k selected then _ else _).
+  assert (H2 : exists h0, h2 = Some h0 /\ In s (h_subrefs h0)).
+  { unfold h2. destruct (pg_mem k selected); eexists; split; try reflexivity; exact Hs. }
+  destruct H2 as (h0 & -> & Hs0). cbn [option_map].
+  set (h1 := if _ && _ then _ else h0).
+  assert (Hs1 : In s (h_subrefs h1)). { unfold h1. destruct (_ && _); exact Hs0. }
+  eexists. split; [reflexivity|]. destruct (pg_out_of k _); [apply pg_subrefs_with_outcome; now left|exact Hs1].
+Qed.
+
+(* ... and for every invoked handler everything its outcome lists *)
+Lemma pg_final_has_reported : forall body owned reason selected lc now orc k s,
+  In k (pg_plan lc (pg_prepare body owned reason selected now) selected now) ->
+  In s (o_subrefs (fst (orc k (pg_retries_of (pg_prepare body owned reason selected now) k)))) ->
+  exists h, pg_find k (st_items (pg_final_of body owned reason selected lc now orc)) = Some h /\ In s (h_subrefs h).
+Proof.
+  intros * Hp Hs. unfold pg_final_of. set (st2 := pg_prepare body owned reason selected now) in *.
+  destruct (pg_plan_spec _ _ _ _ _ Hp) as (_ & h & Hf & _).
+  rewrite pg_find_with_outcomes, Hf. cbn [option_map]. rewrite pg_out_of_run. apply pg_mem_In in Hp. rewrite Hp.
+  eexists. split; [reflexivity|]. apply pg_subrefs_with_outcome. now right.
+Qed.
+
+Theorem close_leaves_nothing : forall body owned reason selected lc now nd orc,
+  pg_handler_reason reason = true -> selected <> [] ->
+  pg_reports_stores orc ->
+  pg_refs_closed (fun s => pg_find s body) owned ->
+  let r := pg_pipeline body owned reason selected lc now nd orc in
+  r_done r = Some true ->
+  forall s, pg_after body (r_patch r) s = None.
+Proof.
+  intros * Hr Hs Hrep Hrc. destruct (pg_pipeline_final body owned reason selected lc now nd orc Hr Hs) as (Ff & Fd & _).
+  cbv zeta in *. intros Hd s. rewrite Fd, Ff in Hd. inversion Hd as [Hd'].
+  rewrite pg_pipeline_patch by assumption. unfold pg_patch_of. rewrite Hd'.
+  set (st2 := pg_prepare body owned reason selected now).
+  set (st3 := pg_final_of body owned reason selected lc now orc).
+  set (ran := pg_run orc st2 (pg_plan lc st2 selected now)).
+  set (p1 := if pg_has_extras st2 then pg_purge body st2 owned [] else []).
+  unfold pg_purge at 1. unfold pg_after. rewrite pg_find_purge_fold.
+  destruct (pg_mem s (pg_purge_ids st3 owned)) eqn:Hm.
+  - unfold pg_purged, pg_has. destruct (pg_find s body); reflexivity.
+  - assert (NP : ~ (In s owned \/ In s (map fst (st_items st3)) \/
+                    exists k' h, In (k', h) (st_items st3) /\ In s (h_subrefs h))).
+    { intros P. apply pg_purge_ids_spec in P. congruence. }
+    assert (Hb : pg_find s body = None).
+    { destruct (pg_find s body) as [x|] eqn:E; [|reflexivity]. exfalso.
+      destruct (Hrc s) as [H|(k & d & Hk & Hkd & Hsd)]; [rewrite E; discriminate|apply NP; now left|].
+      destruct (pg_final_keeps_refs body owned reason selected lc now orc k d s Hk Hkd Hsd) as (h & Hf & Hin).
+      apply NP. right. right. exists k, h. split; [now apply pg_find_In|exact Hin]. }
+    assert (ND : NoDup (map fst (st_items st3))).
+    { unfold st3, pg_final_of. rewrite pg_keys_with_outcomes. apply pg_keys_prepare. }
+    rewrite (pg_find_store _ _ _ ND).
+    destruct (pg_find s (st_items st3)) as [h|] eqn:E3.
+    { exfalso. apply NP. right. left. apply pg_find_In in E3. apply in_map_iff. now exists (s, h). }
+    destruct (pg_find s (pg_apply_effects ran p1)) as [a|] eqn:Ea; [|now rewrite Hb].
+    exfalso. apply pg_find_apply_effects in Ea. destruct Ea as [Ea|(ke & Hke & Hst)].
+    + unfold p1 in Ea. destruct (pg_has_extras st2); [|discriminate].
+      unfold pg_purge in Ea. rewrite pg_find_purge_fold in Ea. simpl in Ea.
+      destruct (pg_mem s (pg_purge_ids st2 owned)); [|discriminate].
+      unfold pg_purged, pg_has in Ea. rewrite Hb in Ea. discriminate.
+    + unfold ran, pg_run in Hke. apply in_map_iff in Hke. destruct Hke as (k & Ek & Hk). subst ke. simpl in Hst.
+      apply Hrep in Hst.
+      destruct (pg_final_has_reported body owned reason selected lc now orc k s Hk Hst) as (h & Hf & Hin).
+      apply NP. right. right. exists k, h. split; [now apply pg_find_In|exact Hin].
+Qed.
+
+(* for handlers with sub-handlers nested to any depth *)
+Theorem close_leaves_nothing_deep : forall body owned reason selected lc now nd fuel fam leaf,
+  pg_handler_reason reason = true -> selected <> [] -> pg_pure leaf ->
+  pg_refs_closed (fun s => pg_find s body) owned ->
+  let r := pg_pipeline body owned reason selected lc now nd (pg_deep_oracle fuel body reason lc now fam leaf) in
+  r_done r = Some true ->
+  forall s, pg_after body (r_patch r) s = None.
+Proof.
+  intros * Hr Hs Hp Hrc. apply close_leaves_nothing; auto. now apply deep_reports_stores.
+Qed.
